@@ -32,13 +32,13 @@ Section C17.
   Proof. exact (validate_Inv T ann ft Hv). Qed.
 End C17.
 
-From Kiki Require Import Emit.Parser Pipeline PipelineProofs.
+From Kiki Require Import LR.Viable Emit.Parser Pipeline PipelineProofs.
 
 Theorem C17_all_tables_carry_the_invariants : forall ho digest src out text,
   perm_hash_order ho -> generate_full ho digest src = Ok (out, text) ->
   exists pt (ann : list (list Grammar.item)) (ft : first_table),
     ptable_of (go_file out) (go_table out) = Some pt /\
-    Inv pt ann (fseq ft) /\ Inv2 pt ann /\ (forall P (kind : P -> nat), FirstOK kind pt (fseq ft)).
+    Inv pt ann (fseq ft) /\ Inv2 pt ann /\ (forall P (kind : P -> nat), FirstOK kind pt (fseq ft)) /\ Inv3 pt ann.
 Proof. exact generate_tables_invariants. Qed.
 
 Print Assumptions C17_every_cell_is_demanded.
